@@ -19,7 +19,7 @@ func init() {
 	Register(&Check{
 		ID:          "C09",
 		Technique:   "stateless model checking of the real Conn under a controlled scheduler: all interleavings (up to a preemption bound) of a writer program, a closer (WriteControl / default close handler / automatic 1002 / automatic 1009 / writer-path close) and an optional WriteControl(ping) caller, with scheduling points at every channel, mutex and transport operation",
-		Rule:        "scenarios = {role} x {deflate} x {4 writer programs} x {6 closer paths} x {ping caller present or not}; within each every schedule with at most 2 (quick) / 3-4 (thorough) preemptions is executed; oracle evaluated on the global event order (API call begin/end, transport write begin/end). non-trivial = a close frame reached the transport and a non-default schedule; distinct by observation hash (wire digest + results)",
+		Rule:        "scenarios = {role} x {deflate} x {6 writer programs} x {6 closer paths} x {ping caller present or not}; within each every schedule with at most 2 (quick) / 3-4 (thorough) preemptions is executed; oracle evaluated on the global event order (API call begin/end, transport write begin/end). non-trivial = a close frame reached the transport and a non-default schedule; distinct by observation hash (wire digest + results)",
 		Assumptions: []string{"scheduling points: channel send/receive/select, mutex Lock, once, pool Get/Put, transport SetWriteDeadline / Write-begin / Write-end / Close (instrumented through a generated go build overlay, nothing in /repo is edited)", "memory-model reorderings are not modelled"},
 		Flavour:     "sched",
 		Budget:      map[string]time.Duration{"quick": 100 * time.Second, "thorough": 25 * time.Minute},
@@ -28,7 +28,7 @@ func init() {
 	})
 }
 
-var c09Progs = []string{"NextWriter+Write(flush)+Write+Close", "WriteMessage", "WriteJSON", "WritePreparedMessage"}
+var c09Progs = []string{"NextWriter+Write(flush)+Write+Close", "WriteMessage", "WriteJSON", "WritePreparedMessage", "NextWriter+Write(400: two-part frame on a server)+Close", "WriteMessage(300: two-part frame on a server)"}
 var c09Closers = []string{"WriteControl(close)", "reader:close-frame", "reader:protocol-error", "reader:read-limit", "writer:WriteMessage(close)", "writer:NextWriter(close)"}
 
 func c09Scenarios(tier string) []*explore.Scenario {
@@ -38,7 +38,7 @@ func c09Scenarios(tier string) []*explore.Scenario {
 			for pi := range c09Progs {
 				for ki := range c09Closers {
 					for _, ping := range []bool{false, true} {
-						if deflate && (pi == 2 || ki >= 4) && tier == "quick" {
+						if tier == "quick" && ((deflate && (pi == 2 || pi >= 4 || ki >= 4)) || (pi >= 4 && ping)) {
 							continue
 						}
 						server, deflate, pi, ki, ping := server, deflate, pi, ki, ping
@@ -136,6 +136,20 @@ func c09Body(x *explore.Ctx, server, deflate bool, pi, ki int, ping bool) {
 			m := &c09Msg{typ: websocket.BinaryMessage, payload: Pattern(0, 40)}
 			msgs = append(msgs, m)
 			record(m, l.call("WritePreparedMessage", func() error { return c.WritePreparedMessage(pm) }))
+		case 4:
+			huge := Pattern(3, 400)
+			m := &c09Msg{typ: websocket.BinaryMessage, payload: huge}
+			msgs = append(msgs, m)
+			var w io.WriteCloser
+			if l.call("NextWriter", func() (err error) { w, err = c.NextWriter(websocket.BinaryMessage); return }) != nil {
+				break
+			}
+			l.call("Write(400)", func() error { _, err := w.Write(huge); return err })
+			record(m, l.call("Close", func() error { return w.Close() }))
+		case 5:
+			m := &c09Msg{typ: websocket.BinaryMessage, payload: Pattern(0, 300)}
+			msgs = append(msgs, m)
+			record(m, l.call("WriteMessage", func() error { return c.WriteMessage(websocket.BinaryMessage, m.payload) }))
 		}
 		writerClose()
 		m2 := &c09Msg{typ: websocket.TextMessage, payload: []byte("second")}
